@@ -32,6 +32,12 @@ pub enum COp {
     CondRm(u32, u32),
     /// (oracle only) what `retain_force` does to one key after its predicate rejected it
     ForceRm(u32),
+    /// (oracle only) what `clear` does to one key: an unconditional removal somewhere inside the call
+    ClearRm(u32),
+    /// (oracle only) a further removal of the same key by the same `clear` (it restarts on the new
+    /// table when it meets a forwarding marker, and may then remove a key that was re-inserted
+    /// meanwhile): may or may not happen
+    ClearRmOpt(u32),
     /// retain / retain_force whose predicate panics at its n-th call (caught by the worker)
     RetainPanic(&'static str, bool, usize),
 }
@@ -39,7 +45,7 @@ pub enum COp {
 impl COp {
     pub fn key(&self) -> Option<u32> {
         match self {
-            COp::Ins(k, ..) | COp::TryIns(k, ..) | COp::Get(k) | COp::GetKv(k) | COp::Has(k) | COp::Rm(k) | COp::Rme(k) | COp::CipInc(k, _) | COp::CipRm(k) | COp::CipPanic(k) | COp::CondRm(k, _) | COp::ForceRm(k) => Some(*k),
+            COp::Ins(k, ..) | COp::TryIns(k, ..) | COp::Get(k) | COp::GetKv(k) | COp::Has(k) | COp::Rm(k) | COp::Rme(k) | COp::CipInc(k, _) | COp::CipRm(k) | COp::CipPanic(k) | COp::CondRm(k, _) | COp::ForceRm(k) | COp::ClearRm(k) | COp::ClearRmOpt(k) => Some(*k),
             _ => None,
         }
     }
@@ -65,6 +71,8 @@ impl COp {
             COp::CipPanic(k) => format!("cippanic {}", k),
             COp::CondRm(k, o) => format!("retain-removes {} if-still {}", k, o),
             COp::ForceRm(k) => format!("retainf-removes {}", k),
+            COp::ClearRm(k) => format!("clear-removes {}", k),
+            COp::ClearRmOpt(k) => format!("clear-may-remove-again {}", k),
             COp::RetainPanic(p, f, n) => format!("{} {} panicat={}", if *f { "retainf" } else { "retain" }, p, n),
         }
     }
@@ -237,7 +245,7 @@ fn exec(m: &M, op: &COp, pin: bool, yielded: &mut Vec<(u32, u64, u32)>, closure_
             m.clear(&g);
             "ok".into()
         }
-        COp::CondRm(..) | COp::ForceRm(..) => "-".into(),
+        COp::CondRm(..) | COp::ForceRm(..) | COp::ClearRm(..) | COp::ClearRmOpt(..) => "-".into(),
         COp::CipPanic(k) => {
             let key = K::new(*k, 0);
             let mut calls = 0u32;
@@ -365,24 +373,34 @@ pub fn run_conc(case: &ConcCase, record_all: bool, budget: usize) -> ConcResult 
     let calls = calls.lock().unwrap().clone();
     let mut life_failures = vec![];
     crate::life::set_current_map(None);
-    if outcome.deadlock || outcome.budget_exceeded {
-        std::mem::forget(map);
-    } else if record_all {
+    let stuck = outcome.deadlock || outcome.budget_exceeded;
+    if !stuck && record_all {
         life_failures.extend(notes.into_iter().filter(|n| n.starts_with('[')));
         let spans: Vec<crate::life::GuardSpan> = calls.iter().map(|c| crate::life::GuardSpan { tid: c.tid, from: c.inv, to: c.resp }).collect();
         let drops = VAL_DROPS.lock().unwrap().clone();
         life_failures.extend(crate::life::analyze(&trace, &spans, &drops));
         let (hbf, _st) = crate::hb::analyze(&trace, n);
         life_failures.extend(hbf);
+    }
+    let mut r = ConcResult { calls, trace, outcome, final_contents, final_snap, wf, panicked, len_final, life_failures };
+    // Judge before teardown: when the run already shows a violation the map may be corrupt
+    // (an entry retired twice, a dangling bin), and dropping it would take the process down
+    // before the violation is reported. Such a map is leaked instead.
+    let pre_failed = stuck || !r.life_failures.is_empty() || !judge(case, &r).failures.is_empty();
+    if pre_failed {
+        std::mem::forget(map);
+    } else {
         // teardown: the map (and the collector it owns) goes away; then every instance ever
         // created must have been dropped exactly once
         match Arc::try_unwrap(map) {
             Ok(m) => drop(m),
-            Err(_) => life_failures.push("[drop] the map is still shared after all threads were joined".into()),
+            Err(_) => r.life_failures.push("[drop] the map is still shared after all threads were joined".into()),
         }
-        life_failures.extend(crate::life::ledger_verdict());
+        if record_all {
+            r.life_failures.extend(crate::life::ledger_verdict());
+        }
     }
-    ConcResult { calls, trace, outcome, final_contents, final_snap, wf, panicked, len_final, life_failures }
+    r
 }
 
 // ------------------------------------------------------------------------------------------
@@ -429,7 +447,7 @@ fn spec_step(st: KState, c: &Call) -> Option<KState> {
             Some((_, oo)) if oo == *o => Some(KState(None)),
             _ => Some(st),
         },
-        COp::ForceRm(_) => Some(KState(None)),
+        COp::ForceRm(_) | COp::ClearRm(_) | COp::ClearRmOpt(_) => Some(KState(None)),
         COp::CipRm(_) => match st.0 {
             None => (res == "none" && c.closure_calls == 0).then_some(st),
             Some((p, oo)) => {
@@ -453,7 +471,7 @@ fn apply_effect(st: KState, c: &Call) -> KState {
                 st
             }
         }
-        COp::Rm(_) | COp::Rme(_) | COp::CipRm(_) | COp::ForceRm(_) => KState(None),
+        COp::Rm(_) | COp::Rme(_) | COp::CipRm(_) | COp::ForceRm(_) | COp::ClearRm(_) | COp::ClearRmOpt(_) => KState(None),
         COp::CondRm(_, o) => match st.0 {
             Some((_, oo)) if oo == *o => KState(None),
             _ => st,
@@ -496,6 +514,10 @@ pub fn linearize(calls: &[Call], init: KState, fin: Option<KState>) -> Option<Ve
             if let Some(st2) = spec_step(st, &calls[i]) {
                 order.push(i);
                 if go(calls, done | (1 << i), st2, fin, memo, order) {
+                    return true;
+                }
+                // an optional pseudo-operation may also do nothing
+                if matches!(calls[i].op, COp::ClearRmOpt(_)) && st2 != st && go(calls, done | (1 << i), st, fin, memo, order) {
                     return true;
                 }
                 order.pop();
@@ -570,8 +592,9 @@ pub fn judge(case: &ConcCase, r: &ConcResult) -> Verdicts {
     let mut keys: std::collections::BTreeSet<u32> = case.prefill.iter().map(|e| e.0).collect();
     keys.extend(r.calls.iter().filter_map(|c| c.op.key()));
     let finished = !r.outcome.deadlock && !r.outcome.budget_exceeded;
-    // clear makes per-key histories depend on a whole-map operation: not judged per key
-    let whole_map_writes = r.calls.iter().any(|c| matches!(c.op, COp::Clear));
+    // `clear` is, per key of the universe, an unconditional removal somewhere inside the call's
+    // interval (a no-op if the key is absent at that moment)
+    let whole_map_writes = false;
     // C13: a retain call is, per key it rejected, a conditional (retain) or unconditional
     // (retain_force) removal somewhere inside the call's interval
     let mut all_calls: Vec<Call> = r.calls.clone();
@@ -586,6 +609,21 @@ pub fn judge(case: &ConcCase, r: &ConcResult) -> Verdicts {
             if parts.len() == 3 && parts[2] == "false" {
                 let (k, o) = (parts[0].parse::<u32>().unwrap_or(0), parts[1].parse::<u32>().unwrap_or(0));
                 all_calls.push(Call { op: if force { COp::ForceRm(k) } else { COp::CondRm(k, o) }, result: "-".into(), yielded: vec![], ..c.clone() });
+            }
+        }
+    }
+    for c in &r.calls {
+        if matches!(c.op, COp::Clear) {
+            for k in &keys {
+                // No property demands that `clear` removes an entry that is present during the whole
+                // call, and it does not: when it meets a forwarding marker it continues on the next
+                // table and never sees the bins of the old table that are transferred after it
+                // passed (observed, and the same in the JDK original). So: one optional removal,
+                // plus one optional further removal per insert of that key that overlaps the clear
+                let again = r.calls.iter().filter(|d| matches!(d.op, COp::Ins(kk, ..) | COp::TryIns(kk, ..) if kk == *k) && d.inv <= c.resp && d.resp >= c.inv).count();
+                for _ in 0..(1 + again.min(4)) {
+                    all_calls.push(Call { op: COp::ClearRmOpt(*k), result: "-".into(), yielded: vec![], ..c.clone() });
+                }
             }
         }
     }
@@ -616,7 +654,13 @@ pub fn judge(case: &ConcCase, r: &ConcResult) -> Verdicts {
                 }
                 None => {
                     let hist: Vec<String> = cs.iter().map(|c| format!("t{}[{}..{}] {} -> {}", c.tid, c.inv, c.resp, c.op.text(), c.result)).collect();
-                    let tag = if cs.iter().any(|c| matches!(c.op, COp::CondRm(..) | COp::ForceRm(..))) { "retain" } else { "lin" };
+                    let tag = if cs.iter().any(|c| matches!(c.op, COp::ClearRm(..) | COp::ClearRmOpt(..))) {
+                        "clear"
+                    } else if cs.iter().any(|c| matches!(c.op, COp::CondRm(..) | COp::ForceRm(..))) {
+                        "retain"
+                    } else {
+                        "lin"
+                    };
                     f.push(format!(
                         "[{}] key {}: no sequential order of its operations explains the results (initial {:?}, final {:?}): {}",
                         tag,
@@ -637,7 +681,7 @@ pub fn judge(case: &ConcCase, r: &ConcResult) -> Verdicts {
                 if w.len() != cs.len() {
                     continue;
                 }
-                let mutating = |c: &Call| matches!(c.op, COp::Ins(..) | COp::TryIns(..) | COp::Rm(..) | COp::Rme(..) | COp::CipInc(..) | COp::CipRm(..) | COp::CondRm(..) | COp::ForceRm(..));
+                let mutating = |c: &Call| matches!(c.op, COp::Ins(..) | COp::TryIns(..) | COp::Rm(..) | COp::Rme(..) | COp::CipInc(..) | COp::CipRm(..) | COp::CondRm(..) | COp::ForceRm(..) | COp::ClearRm(..) | COp::ClearRmOpt(..));
                 let init = KState(case.prefill.iter().rev().find(|e| e.0 == *k).map(|e| (e.1, e.2)));
                 // state after every operation that completed before the iterator was created
                 let mut st = init;
@@ -833,6 +877,80 @@ pub fn gen_conc_mode(id: usize, seed: u64, tier_big: bool, mode: &str) -> ConcCa
             }
             (programs, 64usize, prefill, hashes, "collide")
         }
+        "treeresize" => {
+            // a tree bin in a 64-bin table whose keys differ in the bits the next two resizes split
+            // on; one thread resizes the table while the others remove from / update / look up the
+            // tree bin: operations queue on the bin lock behind the transfer of that very bin
+            let hashes = crate::gen::gen_hashes(&mut rng, "split64", 60);
+            let pre = 9 + rng.below(5) as usize;
+            let mut prefill: Vec<(u32, u64, u32)> = (0..pre).map(|i| ((i + 1) as u32, rng.below(5), fresh())).collect();
+            // filler keys in other bins, so that the count is close to the threshold (48)
+            let filler = if rng.chance(1, 2) { 0 } else { (47usize.saturating_sub(pre + rng.below(3) as usize)).min(36) };
+            for i in 0..filler {
+                prefill.push(((21 + i) as u32, 0, fresh()));
+            }
+            let mut programs = vec![];
+            let mut resizer = vec![];
+            if filler > 0 {
+                for i in 0..(1 + rng.below(3) as usize) {
+                    resizer.push(COp::Ins((58 + i) as u32, 1, fresh()));
+                }
+            } else {
+                resizer.push(COp::Reserve(60 + rng.below(200) as usize));
+                if rng.chance(1, 3) {
+                    resizer.push(COp::Reserve(260 + rng.below(200) as usize));
+                }
+            }
+            programs.push(resizer);
+            for _ in 0..(1 + rng.below(if tier_big { 3 } else { 2 }) as usize) {
+                let mut p = vec![];
+                for _ in 0..(1 + rng.below(3)) {
+                    let k = 1 + rng.below(pre as u64 + 2) as u32;
+                    p.push(match rng.below(12) {
+                        0..=3 => COp::Rm(k),
+                        4 => COp::Rme(k),
+                        5 | 6 => COp::CipInc(k, fresh()),
+                        7 => COp::CipRm(k),
+                        8 | 9 => COp::Ins(k, rng.below(5), fresh()),
+                        10 => COp::Get(k),
+                        _ => COp::Has(k),
+                    });
+                }
+                programs.push(p);
+            }
+            (programs, 42usize, prefill, hashes, "treeresize") // with_capacity(42) = 64 bins, threshold 48
+        }
+        "clear" => {
+            // `clear` running bottom-up while a resize runs top-down, and concurrent inserts
+            let hc = *rng.pick(&["ident", "uniform", "alternate", "zero"]);
+            let hashes = crate::gen::gen_hashes(&mut rng, hc, 60);
+            let cap = *rng.pick(&[0usize, 0, 1, 5, 10]);
+            let tl = if cap == 0 { 16 } else { (cap + cap / 2 + 1).next_power_of_two() };
+            let thr = tl - tl / 4;
+            let pre = thr.saturating_sub(1 + rng.below(3) as usize).min(24);
+            let prefill: Vec<(u32, u64, u32)> = (0..pre).map(|i| ((i + 1) as u32, rng.below(5), fresh())).collect();
+            let mut programs = vec![vec![COp::Clear]];
+            if rng.chance(1, 4) {
+                programs[0].push(COp::Len);
+            }
+            let mut next_key = pre as u32;
+            for _ in 0..(1 + rng.below(2) as usize) {
+                let mut p = vec![];
+                for _ in 0..(1 + rng.below(4)) {
+                    p.push(match rng.below(6) {
+                        0..=2 => {
+                            next_key += 1;
+                            COp::Ins(next_key, 1, fresh())
+                        }
+                        3 => COp::Reserve(20 + rng.below(60) as usize),
+                        4 => COp::Rm(1 + rng.below(pre as u64 + 1) as u32),
+                        _ => COp::Ins(1 + rng.below(pre as u64 + 1) as u32, 2, fresh()),
+                    });
+                }
+                programs.push(p);
+            }
+            (programs, cap, prefill, hashes, "clear")
+        }
         "resize" => {
             // a table right below its threshold; every thread inserts fresh keys
             let hc = *rng.pick(&["ident", "uniform", "alternate"]);
@@ -932,16 +1050,30 @@ pub fn gen_conc_mode(id: usize, seed: u64, tier_big: bool, mode: &str) -> ConcCa
         }
         "solo" => {
             // thread 0 performs one read; the others write into the same bin / resize the table
-            let shape = rng.below(3);
+            let shape = rng.below(4);
             let hc = if shape == 0 { "zero" } else { *rng.pick(&["ident", "fewbins", "alternate"]) };
             let hashes = crate::gen::gen_hashes(&mut rng, hc, 60);
-            let pre = match shape { 0 => 7 + rng.below(5) as usize, 1 => 1 + rng.below(6) as usize, _ => 9 + rng.below(6) as usize };
+            let pre = match shape { 0 => 7 + rng.below(5) as usize, 1 => 1 + rng.below(6) as usize, 3 => 2 + rng.below(8) as usize, _ => 9 + rng.below(6) as usize };
             let prefill: Vec<(u32, u64, u32)> = (0..pre).map(|i| ((i + 1) as u32, rng.below(5), fresh())).collect();
-            let cap = match shape { 0 => 64, 1 => 0, _ => 8 };
+            let cap = match shape { 0 => 64, 1 | 3 => 0, _ => 8 };
             let rk = 1 + rng.below(pre as u64 + 2) as u32;
             let read = match rng.below(6) { 0 | 1 => COp::Get(rk), 2 => COp::Has(rk), 3 => COp::GetKv(rk), 4 => COp::Iter, _ => COp::Len };
             let mut programs = vec![vec![read]];
-            for _ in 0..(1 + rng.below(2) as usize) {
+            if shape == 3 {
+                // a chain of resizes while the reader is suspended in the middle of its operation:
+                // it resumes on a table that has been forwarded more than once
+                let mut p = vec![];
+                let mut want = 13 + rng.below(12) as usize;
+                for _ in 0..(2 + rng.below(2)) {
+                    p.push(COp::Reserve(want));
+                    if rng.chance(1, 2) {
+                        p.push(COp::Ins(1 + rng.below(pre as u64 + 6) as u32, rng.below(5), fresh()));
+                    }
+                    want = want * 2 + rng.below(9) as usize;
+                }
+                programs.push(p);
+            }
+            for _ in 0..(if shape == 3 { rng.below(2) as usize } else { 1 + rng.below(2) as usize }) {
                 let mut p = vec![];
                 for _ in 0..(1 + rng.below(4)) {
                     let k = 1 + rng.below(pre as u64 + 6) as u32;
@@ -965,6 +1097,10 @@ pub fn gen_conc_mode(id: usize, seed: u64, tier_big: bool, mode: &str) -> ConcCa
         2 => Policy::Pct { d: 2, horizon: 200 },
         _ => Policy::Random,
     };
-    let policy = if mode == "solo" { Policy::Solo { reader: 0, after: rng.below(160) as usize } } else { policy };
+    let policy = if mode == "solo" { {
+        let start = if rng.chance(1, 2) { 0 } else { 1 + rng.below(40) as usize };
+        let after = if rng.chance(1, 3) { usize::MAX / 2 } else { start + rng.below(400) as usize };
+        Policy::Solo { reader: 0, start, after }
+    } } else { policy };
     ConcCase { id, seed, hash_class: class, hashes, cap, prefill, programs, policy, pin: rng.chance(1, 3) }
 }
